@@ -1,7 +1,7 @@
 (* C07 proofs, part 2: cookies (over the C13 model), base64 / Authorization, host and port,
    Content-Length, query text. *)
 From Coq Require Import ZArith Lia ZifyBool ZifyN.
-From Wz Require C13.Model.
+From Wz Require C13.Model C13.Gen.
 From Wz Require Import lib.Bytes lib.BytesFacts lib.Utf8 C06.LibPy C06.LibPyFacts C06.Gen C06.Model C06.Proofs
   C07.Gen C07.Model C07.Proofs.
 Open Scope N_scope.
@@ -316,3 +316,15 @@ Qed.
 
 Lemma parse_accept_items_total s : exists l, parse_accept_items s = Ok l.
 Proof. unfold parse_accept_items. destruct s; [eauto|apply accept_items_total]. Qed.
+
+(* ------------------------------------------------------------------ Request.args: parse_qsl is not given a reason to raise *)
+(* holds of the regenerated keywords: no max_num_fields, no strict_parsing *)
+Lemma request_args_checks_total qs : request_args_checks qs = Ok tt.
+Proof. unfold request_args_checks, parse_qsl_checks. change args_max_num_fields with (@None N). change args_strict_parsing with false. reflexivity. Qed.
+
+(* the regex texts the C13 cookie matchers stand for, as this run regenerated them *)
+Lemma cookie_patterns_pinned :
+  list_eqb Wz.C13.Gen.cookie_unslash_re_text [92; 92; 40; 91; 48; 45; 51; 93; 91; 48; 45; 55; 93; 123; 50; 125; 124; 46; 41]
+  && (Wz.C13.Gen.cookie_unslash_re_flags =? 0) && (Wz.C13.Gen.cookie_re_flags =? 320)
+  && (N.of_nat (length Wz.C13.Gen.cookie_re_text) =? 114) && (weighted_sum Wz.C13.Gen.cookie_re_text 1 =? 292951) = true.
+Proof. vm_compute. reflexivity. Qed.
